@@ -218,7 +218,7 @@ class ART2A(BaseART):
             Updated cluster weight.
 
         """
-        return i
+        return np.copy(i)
 
     def get_cluster_centers(self) -> List[np.ndarray]:
         """Get the centers of each cluster, used for regression.
